@@ -283,8 +283,10 @@ def read_senc(buf, b, iv_size: int, piff: bool = False) -> dict:
     """senc (or PIFF uuid SampleEncryptionBox).  Returns the absolute offset of the first
     sample entry and per-sample (iv, subsamples)."""
     _, flags, p = fullbox(buf, b)
-    if piff and flags & 1:
-        p += 20  # AlgorithmID(3) IV_size(1) KID(16)
+    if flags & 1:
+        # AlgorithmID(3) IV_size(1) KID(16): PIFF, and the first edition of 23001-7 for senc too
+        iv_size = buf[p + 3] or iv_size
+        p += 20
     count = struct.unpack_from('>I', buf, p)[0]
     p += 4
     first = p
